@@ -96,3 +96,25 @@ fn kb_frag_flush_ref() {
     }
     core::mem::forget(m);
 }
+
+/// BOUNDED (the real build_media_segment on ONE 1-byte sample, all u64 pts/dts/base times, all u32 sequence numbers): the trun's
+/// data_offset points at the first payload byte (moof size + 8) and the mdat holds the payload - whatever bytes the timestamps contain.
+#[kani::proof]
+#[kani::unwind(6)]
+fn kb_media_segment_one() {
+    let s = FragmentSample { pts: kani::any(), dts: kani::any(), data: vec![0xAB], is_sync: kani::any() };
+    let seq: u32 = kani::any();
+    let base: u64 = kani::any();
+    let samples = [s];
+    let seg = build_media_segment(&samples, seq, base, 90000);
+    let moof = be32_at(&seg, 0) as usize;
+    assert!(seg[4] == b'm' && seg[5] == b'o' && seg[6] == b'o' && seg[7] == b'f');
+    assert!(seg.len() == moof + 9 && be32_at(&seg, moof) == 9 && seg[moof + 8] == 0xAB);
+    // moof(8) mfhd(16) traf(8) tfhd(n) tfdt(20) trun: header(8) version/flags(4) sample_count(4) data_offset(4)
+    let tfhd = be32_at(&seg, 32) as usize;
+    let trun = 32 + tfhd + 20;
+    assert!(seg[trun + 4] == b't' && seg[trun + 5] == b'r' && seg[trun + 6] == b'u' && seg[trun + 7] == b'n');
+    assert!(be32_at(&seg, trun + 12) == 1);
+    assert!(be32_at(&seg, trun + 16) as usize == moof + 8);
+    core::mem::forget(seg); core::mem::forget(samples);
+}
